@@ -17,9 +17,23 @@ func vCmpAsc(a, b vElem) int {
 
 func vCmpDesc(a, b vElem) int { return vCmpAsc(b, a) }
 
+// vCmpAscWide orders like vCmpAsc with magnitudes other than 1.
+func vCmpAscWide(a, b vElem) int {
+	if a.P < b.P {
+		return -3
+	}
+	if a.P > b.P {
+		return 8
+	}
+	return 0
+}
+
 func vPickCmp() (func(a, b vElem) int, int) {
-	if vCase("dir") == 0 {
+	switch vCase("dir") {
+	case 0:
 		return vCmpAsc, 1
+	case 2:
+		return vCmpAscWide, 1
 	}
 	return vCmpDesc, -1
 }
